@@ -350,4 +350,292 @@ theorem dependees_spec (ap : Path → Option DepMeta) (hr : MetaRanked ap) (name
     split <;> simp
   simp only [h0, false_or, List.length_replicate, mem_buildMap_zero names hnd]
 
+/-! ### the scan's graph is acyclic and Kahn's algorithm sorts it -/
+
+theorem Src_rank (ap : Path → Option DepMeta) (mp : MsgMap) (rank : Path → Nat)
+    (hrank : ∀ X, ∀ Y ∈ refsOf ap X, rank Y < rank X) {X : Path} {i : Nat} (h : Src ap mp X i) :
+    ∃ Y, mp.find Y = some i ∧ rank Y < rank X := by
+  induction h with
+  | direct hY hf => exact ⟨_, hf, hrank _ _ hY⟩
+  | through hY _ _ ih =>
+    obtain ⟨Z, hZ, hlt⟩ := ih
+    exact ⟨Z, hZ, Nat.lt_trans hlt (hrank _ _ hY)⟩
+
+theorem getElem?_lt {α : Type} {l : List α} {i : Nat} {a : α} (h : l[i]? = some a) : i < l.length := by
+  by_cases hi : i < l.length
+  · exact hi
+  · rw [List.getElem?_eq_none (by omega)] at h; simp at h
+
+/-- the order extends from edges to paths of edges -/
+theorem order_transGen (deps : List (List Nat)) (n : Nat) (order : List Nat)
+    (hperm : order.Perm (List.range n))
+    (hsrc : ∀ i j, j ∈ deps.getD i [] → i < n)
+    (hedge : ∀ i j, j ∈ deps.getD i [] → ∀ a b : Nat, order[a]? = some i → order[b]? = some j → a < b)
+    (i j : Nat) (h : Relation.TransGen (fun i j => j ∈ deps.getD i []) i j) :
+    ∀ a b : Nat, order[a]? = some i → order[b]? = some j → a < b := by
+  induction h with
+  | single h => exact hedge _ _ h
+  | @tail m k _ hmk ih =>
+    intro a b ha hb
+    have hm : m ∈ order := hperm.mem_iff.2 (List.mem_range.2 (hsrc _ _ hmk))
+    obtain ⟨c, hc⟩ := List.getElem?_of_mem hm
+    exact Nat.lt_trans (ih a c ha hc) (hedge _ _ hmk c b hc hb)
+
+/-- scan, edges and Kahn's algorithm for duplicate-free names and acyclic metadata -/
+theorem kahn_scan (ap : Path → Option DepMeta) (hr : MetaRanked ap) (names : List Path) (hnd : names.Nodup) :
+    ∃ deps order, dependees ap scanFuel names = some deps ∧ kahn deps = some order ∧
+      order.Perm (List.range names.length) ∧
+      ∀ i j, Relation.TransGen (fun i j => j ∈ deps.getD i []) i j →
+        ∀ a b : Nat, order[a]? = some i → order[b]? = some j → a < b := by
+  obtain ⟨deps, hd, hlen, hmem⟩ := dependees_spec ap hr names hnd
+  obtain ⟨rank, hrank, _⟩ := hr
+  have hrange : ∀ l ∈ deps, ∀ j ∈ l, j < deps.length := by
+    intro l hl j hj
+    obtain ⟨i, hi⟩ := List.getElem?_of_mem hl
+    have : j ∈ deps.getD i [] := by
+      rw [List.getD_eq_getElem?_getD, hi]; exact hj
+    obtain ⟨_, Xj, hXj, _⟩ := (hmem i j).1 this
+    rw [hlen]; exact getElem?_lt hXj
+  have hacyc : ∀ i, ∀ j ∈ deps.getD i [],
+      (fun i => rank (names.getD i [])) i < (fun i => rank (names.getD i [])) j := by
+    intro i j hj
+    obtain ⟨_, Xj, hXj, hs⟩ := (hmem i j).1 hj
+    obtain ⟨Y, hY, hlt⟩ := Src_rank ap _ rank hrank hs
+    have hYi := (buildMap_find names hnd Y i).1 hY
+    simp only [List.getD_eq_getElem?_getD, hXj, hYi, Option.getD_some]
+    exact hlt
+  obtain ⟨order, hk, hperm, hord⟩ := kahn_spec deps hrange _ hacyc
+  rw [hlen] at hperm
+  refine ⟨deps, order, hd, hk, hperm, ?_⟩
+  intro i j h
+  exact order_transGen deps names.length order hperm (fun i j hj => ((hmem i j).1 hj).1) hord i j h
+
+/-- for duplicate-free names and acyclic metadata the scan and Kahn's algorithm are defined and
+    output every message once -/
+theorem kahn_defined (ap : Path → Option DepMeta) (hr : MetaRanked ap) (names : List Path) (hnd : names.Nodup) :
+    ∃ deps order, dependees ap scanFuel names = some deps ∧ kahn deps = some order ∧
+      order.Perm (List.range names.length) := by
+  obtain ⟨deps, order, h1, h2, h3, _⟩ := kahn_scan ap hr names hnd
+  exact ⟨deps, order, h1, h2, h3⟩
+
+/-! ### the application's addresses -/
+
+theorem param_eq_getElem (app : App) (i : Nat) (hi : i < app.params.length) :
+    app.param i = app.params[i] := by
+  simp [App.param, List.getD_eq_getElem?_getD, hi]
+
+theorem findAddr_some (app : App) (x : Path) (i : Nat) (h : app.findAddr x = some i) :
+    i < app.size ∧ (app.param i).addr = x := by
+  unfold App.findAddr at h
+  simp only at h
+  split at h
+  · rename_i hlt
+    simp only [Option.some.injEq] at h
+    subst h
+    refine ⟨hlt, ?_⟩
+    rw [param_eq_getElem app _ hlt]
+    have := List.findIdx_getElem (w := hlt)
+    simpa using this
+  · simp at h
+
+theorem findAddr_param (app : App) (hnd : (app.params.map (·.addr)).Nodup) (i : Nat) (hi : i < app.size) :
+    app.findAddr (app.param i).addr = some i := by
+  have hi' : i < app.params.length := hi
+  have hex : ∃ p ∈ app.params, (p.addr == (app.param i).addr) = true :=
+    ⟨app.params[i], List.getElem_mem hi', by rw [param_eq_getElem app i hi']; simp⟩
+  have hlt := List.findIdx_lt_length_of_exists hex
+  have hsome : app.findAddr (app.param i).addr =
+      some (app.params.findIdx (fun p => p.addr == (app.param i).addr)) := by
+    unfold App.findAddr
+    simp only [hlt, if_true]
+  generalize app.params.findIdx (fun p => p.addr == (app.param i).addr) = k at hsome hlt
+  obtain ⟨_, haddr⟩ := findAddr_some app _ _ hsome
+  rw [hsome]
+  congr 1
+  apply nodup_getElem?_inj _ hnd _ _ (app.param i).addr
+  · rw [List.getElem?_map, List.getElem?_eq_getElem hlt, Option.map_some, ← haddr,
+      param_eq_getElem app _ hlt]
+  · rw [List.getElem?_map, List.getElem?_eq_getElem hi', Option.map_some, param_eq_getElem app _ hi']
+
+theorem Tiling.le {a b : Nat} {r : List Item} (h : Tiling a r b) : a ≤ b := by
+  induction r generalizing a with
+  | nil => exact Nat.le_of_eq h
+  | cons it r ih =>
+    obtain ⟨h1, h2, h3⟩ := h
+    have := ih h3
+    omega
+
+theorem Tiling.mem {a b : Nat} {r : List Item} (h : Tiling a r b) {it : Item} (hit : it ∈ r) :
+    a ≤ it.lo ∧ it.lo < it.hi ∧ it.hi ≤ b := by
+  induction r generalizing a with
+  | nil => simp at hit
+  | cons x r ih =>
+    obtain ⟨h1, h2, h3⟩ := h
+    rcases List.mem_cons.1 hit with rfl | hit
+    · exact ⟨by omega, h2, h3.le⟩
+    · have := ih h3 hit
+      omega
+
+theorem array_bounds (app : App) (hwf : app.WF) {base : Path} {first len : Nat}
+    (h : Item.array base first len ∈ app.walk) : 0 < len ∧ first + len ≤ app.size := by
+  obtain ⟨rw, hperm, ht⟩ := hwf.walk_tiles
+  have := ht.mem (hperm.mem_iff.2 h)
+  simp only [Item.lo, Item.hi] at this
+  omega
+
+theorem array_findAddr (app : App) (hwf : app.WF) {base : Path} {first len : Nat}
+    (h : Item.array base first len ∈ app.walk) (k : Nat) (hk : k < len) :
+    app.findAddr (base ++ natDigits k) = some (first + k) := by
+  have hb := array_bounds app hwf h
+  rw [← ((hwf.array_ok base first len h).2 k hk).1]
+  exact findAddr_param app hwf.addr_nodup _ (by omega)
+
+theorem lineParams_lt (app : App) (l : Line) (p : Nat) (hp : p ∈ app.lineParams l) : p < app.size := by
+  unfold App.lineParams at hp
+  split at hp
+  · simp only [Option.mem_toList] at hp
+    exact (findAddr_some app _ _ hp).1
+  · simp only [List.mem_filterMap] at hp
+    obtain ⟨k, _, hk⟩ := hp
+    exact (findAddr_some app _ _ hk).1
+
+/-- the parameters of an array line are elements of its array port -/
+theorem array_lineParams (app : App) (hwf : app.WF) (l : Line) (hok : app.LineOK l) (vs : List Val)
+    (hargs : l.args = .arr vs) (p : Nat) (hp : p ∈ app.lineParams l) :
+    ∃ first len k, Item.array l.addr first len ∈ app.walk ∧ k < len ∧ p = first + k := by
+  simp only [App.LineOK, hargs] at hok
+  obtain ⟨first, len, hw, hlen⟩ := hok
+  simp only [App.lineParams, hargs, List.mem_filterMap, List.mem_range] at hp
+  obtain ⟨k, hk, hf⟩ := hp
+  have hb := array_bounds app hwf hw
+  have hkl : k < len := by omega
+  rw [array_findAddr app hwf hw k hkl] at hf
+  exact ⟨first, len, k, hw, hkl, (Option.some.inj hf).symm⟩
+
+theorem plain_lineParams (app : App) (l : Line) (vs : List Val)
+    (hargs : l.args = .plain vs) (p : Nat) (hp : p ∈ app.lineParams l) :
+    p < app.size ∧ (app.param p).addr = l.addr := by
+  simp only [App.lineParams, hargs, Option.mem_toList] at hp
+  exact findAddr_some app _ _ hp
+
+/-! ### G4: declared dependencies are paths of scanned edges -/
+
+/-- one node of the cover argument: the ancestors `A` declared along `X` -/
+theorem cover_core (app : App) (names : List Path) (hnd : names.Nodup) (E : Nat → Nat → Prop)
+    (hE : ∀ i j Xj, names[j]? = some Xj → Src app.apropos (buildMap names 0 []) Xj i → E i j)
+    (ia : Nat) (Xa : Path) (hia : names[ia]? = some Xa)
+    (D : Nat)
+    (IH : ∀ m, m < D → m < app.size → ∀ a' ∈ (app.param m).anc, (app.param a').addr = Xa →
+      ∃ src, Src app.apropos (buildMap names 0 []) (app.param m).addr src ∧
+        (src = ia ∨ Relation.TransGen E ia src))
+    (X : Path) (A : List Nat) (hA : ∀ m ∈ A, m < D ∧ m < app.size)
+    (hcl : ∀ a ∈ A, (app.param a).addr ∈ refsOf app.apropos X ∨
+      ∃ m ∈ A, a ∈ (app.param m).anc ∧ (app.param m).addr ∈ refsOf app.apropos X) :
+    ∀ a' ∈ A, (app.param a').addr = Xa →
+      ∃ src, Src app.apropos (buildMap names 0 []) X src ∧ (src = ia ∨ Relation.TransGen E ia src) := by
+  intro a' ha' haddr
+  rcases hcl a' ha' with hd | ⟨m, hm, ham, hmr⟩
+  · have hf : (buildMap names 0 []).find (app.param a').addr = some ia :=
+      (buildMap_find names hnd _ _).2 (haddr ▸ hia)
+    exact ⟨ia, Src.direct hd hf, Or.inl rfl⟩
+  · obtain ⟨src', hs', hor⟩ := IH m (hA m hm).1 (hA m hm).2 a' ham haddr
+    cases hfm : (buildMap names 0 []).find (app.param m).addr with
+    | some im =>
+      have hedge : E src' im := hE _ _ _ ((buildMap_find names hnd _ _).1 hfm) hs'
+      refine ⟨im, Src.direct hmr hfm, Or.inr ?_⟩
+      rcases hor with rfl | h
+      · exact .single hedge
+      · exact .tail h hedge
+    | none => exact ⟨src', Src.through hmr hfm hs', hor⟩
+
+/-- every ancestor of `d` whose address has the message `ia` is found by the scan from `d`'s
+    address: as a source itself or behind a path of edges -/
+theorem cover_param (app : App) (hwf : app.WF) (hcov : app.MetaCovers)
+    (names : List Path) (hnd : names.Nodup) (E : Nat → Nat → Prop)
+    (hE : ∀ i j Xj, names[j]? = some Xj → Src app.apropos (buildMap names 0 []) Xj i → E i j)
+    (ia : Nat) (Xa : Path) (hia : names[ia]? = some Xa) (d : Nat) :
+    d < app.size → ∀ a' ∈ (app.param d).anc, (app.param a').addr = Xa →
+      ∃ src, Src app.apropos (buildMap names 0 []) (app.param d).addr src ∧
+        (src = ia ∨ Relation.TransGen E ia src) := by
+  induction d using Nat.strongRecOn with
+  | ind d ih =>
+    intro hd
+    exact cover_core app names hnd E hE ia Xa hia d (fun m hm hms => ih m hm hms)
+      (app.param d).addr (app.param d).anc
+      (fun m hm => by have := hwf.anc_lt d hd m hm; omega) (hcov.1 d hd)
+
+theorem map_addr_getElem? (ls : List Line) (i : Nat) (a : Line) (h : ls[i]? = some a) :
+    (ls.map (·.addr))[i]? = some a.addr := by
+  simp [h]
+
+/-- every dependence the application declares between two present lines is a path of edges found by
+    the scan, also through absent intermediate ports: `ia` reaches `ib` in the dependees graph -/
+theorem edges_cover_dependencies (app : App) (hwf : app.WF) (hcov : app.MetaCovers) (hrank : MetaRanked app.apropos)
+    (ls : List Line) (hnd : (ls.map (·.addr)).Nodup) (hok : ∀ l ∈ ls, app.LineOK l)
+    (deps : List (List Nat)) (hdeps : dependees app.apropos scanFuel (ls.map (·.addr)) = some deps)
+    (ia ib : Nat) (a b : Line) (ha : ls[ia]? = some a) (hb : ls[ib]? = some b) (hlt : app.lineLt a b) :
+    Relation.TransGen (fun i j => j ∈ deps.getD i []) ia ib := by
+  obtain ⟨deps', hd', _, hmem⟩ := dependees_spec app.apropos hrank (ls.map (·.addr)) hnd
+  rw [hdeps] at hd'
+  obtain rfl : deps = deps' := Option.some.inj hd'
+  obtain ⟨rank, hrk, _⟩ := hrank
+  -- scanned sources are edges
+  have hE : ∀ i j Xj, (ls.map (·.addr))[j]? = some Xj →
+      Src app.apropos (buildMap (ls.map (·.addr)) 0 []) Xj i → (fun i j => j ∈ deps.getD i []) i j := by
+    intro i j Xj hXj hs
+    obtain ⟨Y, hY, _⟩ := Src_rank app.apropos _ rank hrk hs
+    exact (hmem i j).2 ⟨getElem?_lt ((buildMap_find _ hnd Y i).1 hY), Xj, hXj, hs⟩
+  have hia := map_addr_getElem? ls ia a ha
+  have hib := map_addr_getElem? ls ib b hb
+  obtain ⟨pa, hpa, pb, hpb, hanc⟩ := hlt
+  have hpbs : pb < app.size := lineParams_lt app b pb hpb
+  -- `a` is not an array line: array elements are nobody's ancestor
+  have haplain : (app.param pa).addr = a.addr := by
+    cases hargs : a.args with
+    | plain vs => exact (plain_lineParams app a vs hargs pa hpa).2
+    | arr vs =>
+      obtain ⟨first, len, k, hw, hk, rfl⟩ :=
+        array_lineParams app hwf a (hok a (List.mem_of_getElem? ha)) vs hargs pa hpa
+      exact absurd hanc (((hwf.array_ok _ first len hw).2 k hk).2.2.2.2 pb hpbs)
+  -- the scan from `b`'s address
+  have hfin : ∃ src, Src app.apropos (buildMap (ls.map (·.addr)) 0 []) b.addr src ∧
+      (src = ia ∨ Relation.TransGen (fun i j => j ∈ deps.getD i []) ia src) := by
+    cases hargs : b.args with
+    | plain vs =>
+      obtain ⟨_, haddr⟩ := plain_lineParams app b vs hargs pb hpb
+      rw [← haddr]
+      exact cover_param app hwf hcov _ hnd _ hE ia a.addr hia pb hpbs pa hanc haplain
+    | arr vs =>
+      obtain ⟨first, len, k, hw, hk, rfl⟩ :=
+        array_lineParams app hwf b (hok b (List.mem_of_getElem? hb)) vs hargs pb hpb
+      have hanceq := ((hwf.array_ok _ first len hw).2 k hk).2.2.1
+      rw [hanceq] at hanc
+      have hb0 := array_bounds app hwf hw
+      have hfs : first < app.size := by omega
+      exact cover_core app _ hnd _ hE ia a.addr hia app.size
+        (fun m _ hm => cover_param app hwf hcov _ hnd _ hE ia a.addr hia m hm)
+        b.addr (app.param first).anc
+        (fun m hm => by have := hwf.anc_lt first hfs m hm; omega)
+        (hcov.2 b.addr first len hw) pa hanc haplain
+  obtain ⟨src, hs, hor⟩ := hfin
+  have hedge := hE src ib b.addr hib hs
+  rcases hor with rfl | h
+  · exact .single hedge
+  · exact .tail h hedge
+
+/-- G4 (the property's `edges_cover_dependencies` + `kahn_is_topological` combined for lines):
+    whenever a line `a` must precede a line `b` (some parameter of `a` is an ancestor of one of `b`),
+    `a` stands before `b` in the order Kahn's algorithm outputs — wherever the two lines stand in the
+    file, and also when intermediate ports have no line. -/
+theorem kahn_order_respects (app : App) (hwf : app.WF) (hcov : app.MetaCovers) (hrank : MetaRanked app.apropos)
+    (ls : List Line) (hnd : (ls.map (·.addr)).Nodup) (hok : ∀ l ∈ ls, app.LineOK l) :
+    ∃ deps order, dependees app.apropos scanFuel (ls.map (·.addr)) = some deps ∧ kahn deps = some order ∧
+      order.Perm (List.range ls.length) ∧
+      ∀ (ia ib : Nat) (a b : Line), ls[ia]? = some a → ls[ib]? = some b → app.lineLt a b →
+        ∀ pa pb : Nat, order[pa]? = some ia → order[pb]? = some ib → pa < pb := by
+  obtain ⟨deps, order, hd, hk, hperm, hord⟩ := kahn_scan app.apropos hrank (ls.map (·.addr)) hnd
+  refine ⟨deps, order, hd, hk, by simpa using hperm, ?_⟩
+  intro ia ib a b ha hb hlt
+  exact hord ia ib (edges_cover_dependencies app hwf hcov hrank ls hnd hok deps hd ia ib a b ha hb hlt)
+
 end Rtosc.Save
